@@ -7,6 +7,8 @@ import (
 	"time"
 
 	"github.com/bool64/cache"
+
+	"verif/vsched"
 )
 
 // backend is a uniform view of the three in-memory backends for the sequential harnesses.
@@ -32,7 +34,12 @@ type backend interface {
 
 var backendKinds = []string{"ShardedMap", "SyncMap", "ShardedMapOf"}
 
-func newBackend(kind string, cfg cache.Config) backend {
+func newBackend(kind string, cfg cache.Config) (b backend) {
+	vsched.Construct(func() { b = newBackendRaw(kind, cfg) })
+	return b
+}
+
+func newBackendRaw(kind string, cfg cache.Config) backend {
 	switch kind {
 	case "ShardedMap":
 		return &bSM{cache.NewShardedMap(cfg.Use)}
